@@ -478,6 +478,68 @@ def sweep(fx, R):
                                    bm['name'], key['name'], pp(x['c'])[:80], ', '.join(sorted(stale)), stale[o_][0].split('(')[0].split('::')[-1] + '()', o_), fx.rel(x.get('loc') or f['loc']), 'E-PURE')
                 elif deps:
                     R.holds('H5', inst, 'cache keyed on the argument; the other members it is computed from (%s) are written by no other method' % ', '.join(sorted(deps)), fx.rel(x.get('loc') or f['loc']), 'E-PURE')
+    # H5, hit-return form: `if (valid_ && arg.x == key_.x && ...) return cached_;  key_ = arg; cached_ = g(arg, other members); valid_ = true; return cached_;`
+    writes_of = {}
+    for (cls_n, name_n), qs in all_writers.items():
+        for q_ in qs:
+            writes_of.setdefault(q_, set()).add((cls_n, name_n))
+
+    def conjuncts(c):
+        c = strip_casts(c)
+        if c.get('k') == 'Bin' and c.get('op') == '&&':
+            return conjuncts(c['l']) + conjuncts(c['r'])
+        if c.get('k') == 'Paren' and c.get('e') is not None:
+            return conjuncts(c['e'])
+        return [c]
+    for f in sorted(fns, key=lambda f: f['q']):
+        cls = f.get('cls')
+        if not cls or f.get('ctor') or f.get('body') is None or not f.get('params'):
+            continue
+        pids = {p['id'] for p in f.get('params', [])}
+        for blk in walk(f['body']):
+            if not (isinstance(blk, dict) and blk.get('k') == 'Compound'):
+                continue
+            for i_, x in enumerate(blk['s']):
+                if not (x.get('k') == 'If' and x.get('e') is None and any(isinstance(y, dict) and y.get('k') == 'Return' for y in walk(x.get('t')))):
+                    continue
+                keys, flags = set(), set()
+                for cj in conjuncts(x['c']):
+                    if cj.get('k') in ('Bin', 'Op') and cj.get('op') == '==':
+                        sides = (cj['l'], cj['r']) if cj.get('k') == 'Bin' else tuple(cj.get('args', [])[:2])
+                        mem = [y for s_ in sides for y in walk(s_) if isinstance(y, dict) and y.get('k') == 'Member' and y.get('field') and y.get('cls') == cls]
+                        par = any(isinstance(y, dict) and y.get('k') == 'Ref' and y.get('id') in pids for s_ in sides for y in walk(s_))
+                        if mem and par:
+                            keys.add(mem[0]['name'])
+                    else:
+                        for y in walk(cj):
+                            if isinstance(y, dict) and y.get('k') == 'Member' and y.get('field') and y.get('cls') == cls:
+                                flags.add(y['name'])
+                if not keys:
+                    continue
+                miss = {'k': 'Compound', 's': blk['s'][i_ + 1:]}
+                st_ = stores_in(miss)
+                names_ = {bm['name'] for (bm, _) in st_ if bm.get('cls') == cls}
+                if not (keys & names_) or len(names_) < 2:
+                    continue
+                guard_members = names_ | keys | flags
+                for (bm, rhs) in st_:
+                    if bm.get('cls') != cls or bm['name'] in keys or bm['name'] in flags:
+                        continue
+                    deps = member_reads(rhs, cls) - names_
+                    stale = {}
+                    for o_ in deps:
+                        ws = [w_ for w_ in all_writers.get((cls, o_), ()) if w_ != f['q'] and not any((cls, gm_) in writes_of.get(w_, ()) for gm_ in guard_members)]
+                        if ws:
+                            stale[o_] = sorted(ws)
+                    inst = '%s:keyed-cache:%s' % (f['q'].split('(')[0], bm['name'])
+                    if stale:
+                        o_ = sorted(stale)[0]
+                        R.violated('H5', inst, '`%s` is returned again whenever the argument equals the remembered `%s` (`%s`), but it was computed from %s too, which %s changes without invalidating the remembered '
+                                   'result: after that call the SAME argument is answered with the value computed for the old %s - the result depends on the calls made before, not only on the object\'s state and '
+                                   'the argument' % (bm['name'], ', '.join(sorted(keys)), pp(x['c'])[:110], ', '.join(sorted(stale)), stale[o_][0].split('(')[0].split('::')[-1] + '()', o_),
+                                   fx.rel(x.get('loc') or f['loc']), 'E-PURE')
+                    elif deps:
+                        R.holds('H5', inst, 'result remembered per argument; every method that writes what it is computed from (%s) also invalidates it' % ', '.join(sorted(deps)), fx.rel(x.get('loc') or f['loc']), 'E-PURE')
     # ---- H2: single precision inside a double computation -----------------------------------------------------------------
     prec = PRECISION.get(getattr(R, 'prop', None))
     if prec is not None:
